@@ -26,6 +26,7 @@ PRELUDE_SEXP = """
                       (N (block () (str "N")))))))
   (fun isI ((u (union Un))) bool (block () (matchu (var u) ((I _ (block () (bool true)))) (default (block () (bool false))))))
   (fun cls ((s string)) int (block () (matchs (var s) (("a" (block () (int 1))) ("bb" (block () (int 2)))) (bind o (block () (ext strings.Length ((var o))))))))
+  (fun useall ((u unit)) unit (block ((let z (ext slice.Length ((slice int ((int 1)))))) (let q (ext strings.Length ((str "x"))))) (ext frt.Printf1 ((str "%d\\n") (bin + (var z) (var q))))))
 """
 PRELUDE_FO = """package main
 import frt
@@ -381,7 +382,7 @@ class G:
                 ss.append("(do (ext frt.Println ((ext frt.Snd ((var %s))))))" % x); fs.append("  frt.Println (frt.Snd %s)" % x)
             else:
                 ss.append('(do (ext frt.Printf1 ((str "%%v\\n") (var %s))))' % x); fs.append('  frt.Printf1 "%%v\\n" %s' % x)
-        sexp = "(prog (%s) (block (%s) (ext frt.Println ((str \"end\")))))" % (PRELUDE_SEXP, "\n".join(ss))
+        sexp = "(prog (%s) (block ((do (call useall 1 ((unit)))) %s) (ext frt.Println ((str \"end\")))))" % (PRELUDE_SEXP, "\n".join(ss))
         fo = PRELUDE_FO + "let main () =\n  useall ()\n" + "\n".join(fs) + '\n  frt.Println "end"\n'
         return " ".join(sexp.split("\n")), fo
 
@@ -414,6 +415,7 @@ def main():
     try:
         shutil.copytree(REPO, os.path.join(scr, "tree"), ignore=shutil.ignore_patterns(".git"))
         subprocess.run(["go", "build", "-o", os.path.join(scr, "fc"), "."], cwd=os.path.join(scr, "tree", "fc"), env=ENV, check=True)
+        subprocess.run(["go", "build", "-o", os.path.join(scr, "gocanon"), "."], cwd=os.path.join(ROOT, "oracle", "gocanon"), env=ENV, check=True)
         bad = 0
         for i in range(n):
             g = G(random.Random(seed * 1000 + i))
@@ -428,6 +430,13 @@ def main():
             if not os.path.exists(os.path.join(d, "gen_m.go")):
                 print("prog %d: fc failed: %s" % (i, (r.stdout + r.stderr).strip().split("\n")[-1])); bad += 1
                 shutil.copy(os.path.join(d, "m.fo"), "/tmp/c01fuzz_fail_%d_%d.fo" % (seed, i)); continue
+            real_s = subprocess.run([os.path.join(scr, "gocanon"), "gen_m.go"], cwd=d, capture_output=True, text=True).stdout.strip()
+            model_s = ask("C01 (compile %s)" % sexp)
+            if real_s != model_s:
+                k = 0
+                while k < min(len(real_s), len(model_s)) and real_s[k] == model_s[k]:
+                    k += 1
+                print("prog %d: STRUCTURE differs\n  real : %s\n  model: %s" % (i, real_s[max(0, k-80):k+120], model_s[max(0, k-80):k+120])); bad += 1
             mod = "module example.com/p\n\ngo 1.23.4\n\nrequire (\n" + "".join("\tgithub.com/karino2/folang/pkg/%s v0.0.0\n" % p for p in ["frt", "slice", "strings", "dict", "buf", "sys"]) + ")\n" + \
                   "".join("replace github.com/karino2/folang/pkg/%s => %s/pkg/%s\n" % (p, REPO, p) for p in ["frt", "slice", "strings", "dict", "buf", "sys"])
             open(os.path.join(d, "go.mod"), "w").write(mod)
@@ -444,7 +453,7 @@ def main():
                 if gor.startswith("OUT") or real.endswith(b"end\n"):
                     bad += 1
                 continue
-            want = b"2\n" + unq(src)
+            want = unq(src)
             if real != want:
                 bad += 1
                 print("prog %d: real Go differs from the model" % i)
